@@ -906,8 +906,10 @@ def _dipole_vector(grid, points, decimals=9, nodes=None):
                 rz = (x_c[2] - nodes_z[iz]) / grid.h[2][iz]
                 ez = 1 - rz
 
-                # Add to field (only if segment inside cell).
-                if min(rx, ex, ry, ey, rz, ez) >= 0 and np.max(abs(ar-al)) > 0:
+                # Add to field (only if segment inside cell; decided to the
+                # precision of the rounded nodes, for points on last nodes).
+                inside = np.round(min(rx, ex, ry, ey, rz, ez), decimals) >= 0
+                if inside and np.max(abs(ar-al)) > 0:
 
                     vfield.fx[ix, iy, iz] += ey*ez*x_len
                     vfield.fx[ix, iy+1, iz] += ry*ez*x_len
